@@ -34,6 +34,11 @@ public:
   int check_atom_id(int atom_number) override;
 
   cvm::real rand_gaussian() override;
+
+  // the user's force callback (what a Tcl-enabled engine runs as `calc_colvar_forces`): a list of script commands, run through
+  // the same entry point as every other script command
+  std::vector<std::vector<std::string>> callback_cmds;
+  int run_force_callback() override;
   void add_energy(cvm::real e) override { bias_energy += e; }
   cvm::real bias_energy = 0.0;
 
@@ -42,6 +47,8 @@ public:
   int set_smp_mode(smp_mode_t mode) override { smp_mode_v = mode; return COLVARS_OK; }
   int smp_loop(int n_items, std::function<int (int)> const &worker) override;
   int smp_biases_loop() override;
+  int smp_biases_script_loop() override;
+  bool script_last = false;       // the scripted-force task runs after the biases' items instead of before (m.opt scriptlast 1)
   int smp_thread_id() override;
   int smp_num_threads() override { return n_threads; }
   int smp_lock() override;
